@@ -113,7 +113,7 @@ class Sites(ast.NodeVisitor):
         self.generic_visit(node)
 
     def visit_Return(self, node):
-        if node.value is not None:
+        if node.value is not None and not (isinstance(node.value, ast.Constant) and node.value.value is None):
             self.add(node, "return_none", None)
         self.generic_visit(node)
 
